@@ -1,10 +1,11 @@
 import Driver.Util
 import Driver.Store
 import Driver.Match
+import Driver.ITS
 open Lean
 
 /-- All command handlers; the first one that knows the command answers. -/
-def handlers : List Driver.Handler := [Driver.Store.handle, Driver.Match.handle]
+def handlers : List Driver.Handler := [Driver.Store.handle, Driver.Match.handle, Driver.ITS.handle]
 
 def dispatch (line : String) : Json :=
   match Json.parse line with
